@@ -37,6 +37,10 @@ def _val_summary(v):
     return ["other", repr(v)[:80]]
 
 
+class _NoExecutor(Exception):
+    pass
+
+
 class Ctx:
     def __init__(self, w, case):
         self.w = w
@@ -52,6 +56,7 @@ class Ctx:
         self.maps = []
         self.pending_submit = set()
         self.death_snapshots = []
+        self.ex_taken = 0
 
 
 def _mk_executor(ctx, cfgx):
@@ -76,7 +81,7 @@ def _register(ctx, ex, kind):
         if r["obj"] is ex:
             return r
     r = {"obj": ex, "executor_id": getattr(ex, "executor_id", None), "kind": kind, "released": False,
-         "max_workers": ex._max_workers}
+         "max_workers": ex._max_workers, "holders": set()}
     ctx.executors.append(r)
     return r
 
@@ -146,17 +151,39 @@ def _user_thread(ctx, i, ops):
         if th["ex"] is not None:
             return th["ex"]
         if ctx.cfg["executor"] == "plain":
-            if i == 0 and ctx.ex is None:
+            raise _NoExecutor()
+        ex, info = _get_reusable(ctx, ctx.cfg)
+        th["ex"] = ex
+        return th["ex"]
+
+    def drop_ref():
+        """This thread lets go of its reference to a plain executor (refcounting collects it when it was the last)."""
+        ex = th["ex"]
+        th["ex"] = None
+        if ex is None or ctx.cfg["executor"] != "plain":
+            return
+        for r in ctx.executors:
+            if r["obj"] is ex:
+                r["holders"].discard(i)
+                if not r["holders"]:
+                    r["released"] = True
+                    r.setdefault("shutdown_step", w.steps)
+                    r["deleted"] = True
+                    r["obj"] = None
+        del ex
+
+    def body():
+        if ctx.cfg["executor"] == "plain":
+            # every thread holds its own reference from the start, as threads started with the executor as argument
+            if i == 0:
                 ctx.ex = _mk_executor(ctx, ctx.cfg)
+                ctx.executors[-1]["holders"] = set(range(len(ctx.case["program"])))
             else:
                 w.block_until(lambda: ctx.ex is not None, None, what="user:wait-for-executor")
             th["ex"] = ctx.ex
-        else:
-            ex, info = _get_reusable(ctx, ctx.cfg)
-            th["ex"] = ex
-        return th["ex"]
-
-    def body():
+            ctx.ex_taken += 1
+            if ctx.ex_taken == len(ctx.case["program"]):
+                ctx.ex = None
         for k, op in enumerate(ops):
             rec = {"thread": i, "k": k, "op": op, "start": w.steps, "outcome": None}
             ctx.ops.append(rec)
@@ -167,7 +194,7 @@ def _user_thread(ctx, i, ops):
                     raise
                 rec["outcome"] = ["raise", _exc_summary(e)]
             rec["end"] = w.steps
-        th["ex"] = None
+        drop_ref()
 
     def _do(op):
         name = op[0]
@@ -183,13 +210,18 @@ def _user_thread(ctx, i, ops):
                 return "skipped"
             return _val_summary(f.result())
         if name == "wait_all":
-            for tok in list(th["mine"]):
-                f = ctx.futs[tok]
-                try:
-                    f.result()
-                except BaseException as e:
-                    if isinstance(e, (_w.HarnessBug, _w._ProcExit)):
-                        raise
+            seen = set()
+            while True:
+                todo = [tok for tok, m in ctx.fut_meta.items() if m["thread"] == i and tok not in seen]
+                if not todo:
+                    break
+                for tok in todo:
+                    seen.add(tok)
+                    try:
+                        ctx.futs[tok].result()
+                    except BaseException as e:
+                        if isinstance(e, (_w.HarnessBug, _w._ProcExit)):
+                            raise
             return None
         if name == "cancel":
             f = ctx.futs.get(op[1])
@@ -208,7 +240,7 @@ def _user_thread(ctx, i, ops):
             mrec["out"] = [list(x) for x in out]
             return len(out)
         if name == "shutdown":
-            ex = th["ex"] or ctx.ex
+            ex = th["ex"]
             if ex is None:
                 return "skipped"
             for r in ctx.executors:
@@ -219,19 +251,9 @@ def _user_thread(ctx, i, ops):
             ex.shutdown(wait=op[1], kill_workers=op[2])
             return None
         if name == "del":
-            ex = th["ex"] or ctx.ex
-            if ex is None:
+            if th["ex"] is None:
                 return "skipped"
-            for r in ctx.executors:
-                if r["obj"] is ex:
-                    r["released"] = True
-                    r.setdefault("shutdown_step", w.steps)
-                    r["obj"] = None
-                    r["deleted"] = True
-            th["ex"] = None
-            ctx.ex = None
-            del ex
-            gc.collect()
+            drop_ref()
             return None
         if name == "get":
             ex, info = _get_reusable(ctx, op[1])
@@ -242,7 +264,8 @@ def _user_thread(ctx, i, ops):
             if f is None:
                 return "skipped"
             kind = op[2]
-            ex = th["ex"]
+            import weakref
+            exref = weakref.ref(th["ex"]) if th["ex"] is not None else (lambda: None)
 
             def cb(fut, kind=kind, tok=op[1]):
                 ctx.cb_log.append((tok, kind, w.steps))
@@ -253,6 +276,10 @@ def _user_thread(ctx, i, ops):
                 if kind == "submit":
                     spec = {"kind": "echo", "token": 10000 + tok}
                     try:
+                        ex = exref()
+                        if ex is None:
+                            ctx.cb_log.append((tok, "submit_skipped_executor_gone", None))
+                            return
                         _submit(ctx, {"ex": ex, "i": i}, spec)
                     except BaseException as e:
                         if isinstance(e, (_w.HarnessBug, _w._ProcExit)):
@@ -271,6 +298,10 @@ def _user_thread(ctx, i, ops):
             return None
         if name == "exit":
             # interpreter exit: threading._shutdown runs the registered atexit callbacks
+            # (exotic zone kept out: a first submit racing with an interpreter exit that found no hook registered)
+            others = [t for t in w.tasks if t.name.startswith("user") and t is not w.cur]
+            w.block_until(lambda: bool(w.root.atexit) or all(t.state in ("done", "dead") for t in others), None,
+                          what="user:exit-waits-for-atexit-hook")
             ctx.exit_called = True
             for r in ctx.executors:
                 r["released"] = True
@@ -374,7 +405,8 @@ def _history(w, ctx, verdict, wlist):
     H.maps = ctx.maps
     H.cb_log = ctx.cb_log
     H.exit_called = ctx.exit_called
-    H.executors = [{k: v for k, v in r.items() if k != "obj"} for r in ctx.executors]
+    H.executors = [{k: (sorted(v) if k == "holders" else v) for k, v in r.items() if k != "obj"}
+                   for r in ctx.executors]
     for r, src in zip(H.executors, ctx.executors):
         o = src["obj"]
         if o is not None:
@@ -398,6 +430,8 @@ def _history(w, ctx, verdict, wlist):
     H.timers_fired = w.timers_fired
     H.preemptions = w.preemptions
     H.excluded = dict(w.excluded)
+    if ctx.case.get("_excluded_program"):
+        H.excluded["program:no_release_with_pending_when_respawn_possible"] = ctx.case["_excluded_program"]
     H.max_concurrency = w.max_concurrency
     H.concurrency_samples = w.concurrency_samples
     H.hist = dict(w.hist)
